@@ -339,6 +339,10 @@ func malformed() []tcase {
 		{Name: "multipart-missing-body-part-delete", Raw: req("/r/k", "DELETE", mpct, mp(part("application/x-www-form-urlencoded", "a=b")))},
 		{Name: "multipart-unknown-part-type", Raw: req("/r/k", "PUT", mpct, mp(part("application/x-www-form-urlencoded", "a=b"), part("text/plain", "{}")))},
 		{Name: "multipart-unknown-part-type-first", Raw: req("/r/k", "PUT", mpct, mp(part("text/plain", "x"), part("application/x-www-form-urlencoded", "a=b"), part("application/json", "{}")))},
+		{Name: "multipart-unknown-part-type-middle", Raw: req("/r/k", "PUT", mpct, mp(part("application/x-www-form-urlencoded", "a=b"), part("text/plain", "x"), part("application/json", "{}")))},
+		{Name: "multipart-unknown-part-type-last", Raw: req("/r/k", "PUT", mpct, mp(part("application/x-www-form-urlencoded", "a=b"), part("application/json", "{}"), part("text/plain", "x")))},
+		{Name: "multipart-unknown-part-type-last-body-first", Raw: req("/r/k", "PUT", mpct, mp(part("application/json", "{}"), part("application/x-www-form-urlencoded", "a=b"), part("text/plain", "x")))},
+		{Name: "multipart-unknown-part-type-only", Raw: req("/r/k", "PUT", mpct, mp(part("text/plain", "x")))},
 		{Name: "override-with-url-query-form", Raw: req("/r/k?x=y", "GET", "application/x-www-form-urlencoded", "a=b")},
 		{Name: "override-with-url-query-multipart", Raw: req("/r/k?x=y", "PUT", mpct, mp(part("application/x-www-form-urlencoded", "a=b"), part("application/json", "{}")))},
 		{Name: "multipart-truncated", Raw: req("/r/k", "PUT", mpct, "--"+b+"\r\nContent-Type: application/x-www-form-urlencoded\r\n\r\na=b\r\n--"+b+"\r\nContent-Type: application/json\r\n\r\n{")},
@@ -513,7 +517,7 @@ func main() {
 	// well-formed tunnelled requests through the whole server, framed with Content-Length and chunked: the stub
 	// resource is reached exactly as by the plain request
 	ss := rep.S("server-framing")
-	ss.Bounds = "verbs {GET, PUT, DELETE} x 3 queries x {Content-Length, chunked} framing of the tunnelled request, fed raw to a server with stub resource code: same status and resource invocation as the plain request"
+	ss.Bounds = "verbs {GET, PUT, DELETE} x 3 queries x {Content-Length, chunked} framing of the tunnelled request, the envelope media type in three other spellings (parameters, letter case), the multipart parts in the other order, fed raw to a server with stub resource code: same status and resource invocation as the plain request"
 	for _, verb := range []string{"GET", "PUT", "DELETE"} {
 		for _, q := range []string{"a=b", "p=%28x%29&z=1", "p=" + strings.Repeat("x", 5000)} {
 			body := ""
@@ -536,6 +540,22 @@ func main() {
 			framings := map[string]string{
 				"content-length": thead + fmt.Sprintf("Content-Length: %d\r\n\r\n%s", len(env), env),
 				"chunked":        thead + "Transfer-Encoding: chunked\r\n\r\n" + fmt.Sprintf("%x\r\n%s\r\n0\r\n\r\n", len(env), env),
+			}
+			// the same envelope media type as other clients spell it (parameters, letter case), and the two parts
+			// of a multipart envelope in the other order
+			theadFor := func(ct string) string {
+				return "POST /r/k HTTP/1.1\r\n" + head + "X-HTTP-Method-Override: " + verb + "\r\nContent-Type: " + ct + "\r\n"
+			}
+			if body == "" {
+				for i, sp := range []string{"application/x-www-form-urlencoded; charset=UTF-8", "application/x-www-form-urlencoded;charset=utf-8", "Application/X-WWW-Form-UrlEncoded"} {
+					framings[fmt.Sprintf("media-type-spelling-%d", i)] = theadFor(sp) + fmt.Sprintf("Content-Length: %d\r\n\r\n%s", len(env), env)
+				}
+			} else {
+				for i, sp := range []string{"multipart/mixed; boundary=\"BOUND\"", "Multipart/Mixed; charset=UTF-8; boundary=BOUND"} {
+					framings[fmt.Sprintf("media-type-spelling-%d", i)] = theadFor(sp) + fmt.Sprintf("Content-Length: %d\r\n\r\n%s", len(env), env)
+				}
+				env2 := "--BOUND\r\nContent-Type: application/json\r\n\r\n" + body + "\r\n--BOUND\r\nContent-Type: application/x-www-form-urlencoded\r\n\r\n" + q + "\r\n--BOUND--\r\n"
+				framings["parts-body-first"] = thead + fmt.Sprintf("Content-Length: %d\r\n\r\n%s", len(env2), env2)
 			}
 			hits = 0
 			px, perr := wire.DoRaw(h, []byte(plain))
